@@ -358,7 +358,7 @@ class MapDecoder:
         while work:
             b = work.pop(0)
             for s in cfg.succ[b]:
-                if s not in body or s == header:
+                if s == header:
                     continue
                 f = self._edge_filter(b, s)
                 out = f(state[b]) if f else set(state[b])
@@ -377,6 +377,30 @@ class MapDecoder:
 
     def classes_at(self, bb):
         return frozenset(self.classes.get(bb, set()))
+
+    def class_name(self, cls):
+        """compact name of a label-class set: '1', '2', 'default', 'all', 'pre' ..."""
+        if not cls:
+            return "pre"
+        if cls == frozenset(self.universe):
+            return "all"
+        ints = sorted(c[1] for c in cls if c[0] == "int")
+        rest = sorted(c[0] for c in cls if c[0] != "int")
+        if ints and not rest:
+            return ",".join(str(i) for i in ints)
+        if not ints and set(rest) == {"other-int", "text"}:
+            return "default"
+        return ",".join([str(i) for i in ints] + rest)
+
+    def reject_sites(self):
+        """[(class name, census key, outcome)] for every non-Ok exit of the decoder"""
+        from .census import site_key
+        out = []
+        for o in outcomes(self.fn, self.pv):
+            if o["kind"] == "ok":
+                continue
+            out.append((self.class_name(self.classes_at(o["bb"])), site_key(o, self.fn), o))
+        return out
 
 
 def const_label_int(prog, t):
